@@ -89,6 +89,7 @@ func prioSnakeUpper(s string) string {
 }
 
 var prioGoNames = []string{"A", "B", "Ab", "AB", "ABc", "HTTPPort", "ListenAddr", "X1", "X1y", "A_b", "Sub", "DB", "Db2Url", "URL2", "Z9Z",
+	"Base64URL", "Http2TLS", "S3AccessKey", "Utf8BOM", "A1B", "Ab12CD", "X9Yz", "Md5Sum", "Sha256ID", "V2", "I18nKey", "OAuth2URL",
 	"ConfigB64", "Port", "Name", "N", "V", "Debug", "TimeoutMs", "I64", "Key_ID", "Q_", "R2D2", "Inner", "Opt", "LogLevel", "Y"}
 
 var prioTagNames = []string{"p", "port", "a-b", "x.y", "n1", "é", "listen", "v", "d", "level", "t-5", "k", "q", "name", "w", "0", "x y", "a_b"}
@@ -442,6 +443,10 @@ func prioGenCase(r *Rng, st *prioStruct, dir string, id int, forced []int) *prio
 		} else {
 			groups = append(groups, []string{"--config", c.Path})
 		}
+	}
+	// -help (a built-in bool flag) along with everything else: Parse must still apply every source
+	if r.Chance(8) {
+		groups = append(groups, Pick(r, [][]string{{"-help"}, {"--help"}, {"-help=true"}, {"-help=false"}, {"--help=1"}}))
 	}
 	for i := len(groups) - 1; i > 0; i-- {
 		j := r.Intn(i + 1)
